@@ -196,12 +196,20 @@ func runC08(r *Report, tier string) {
 						if c.Val && c.Pred.Op == "res" && c.Pred.S == "1" && c.Pred.Args[0].Op == "call" && c.Pred.Args[0].S == shortFn(norm) {
 							okN = true
 						}
-						if !c.Val && c.Pred.Op == "res" && c.Pred.S == "1" && c.Pred.Args[0].Op == "lookup" && strings.Contains(c.Pred.Args[0].Args[1].String(), "call<"+shortFn(norm)+">") {
-							okD = true
-						}
+					}
+					tested, inserted := P.dupTested(p.conds, norm)
+					okD = tested
+					if !inserted {
+						p.instrs(func(in ssa.Instruction) {
+							if mu, ok := in.(*ssa.MapUpdate); ok && strings.Contains(p.eng.of(mu.Key).String(), "call<"+shortFn(norm)+">") && p.eng.of(mu.Map).Op == "makemap" && mu.Value.Type().String() == "struct{}" {
+								inserted = true
+							}
+						})
 					}
 					if !okN || !okD {
 						why = fmt.Sprintf("a parameter can be copied without normalisation (%v) / duplicate test (%v)", okN, okD)
+					} else if !inserted {
+						why = "a copied parameter's normalised label is not recorded in the seen-set"
 					}
 				}
 				o.check(why == "", "normalised and unique", why)
